@@ -14,6 +14,17 @@ ROOT, H = chk.ROOT, chk.H
 PID = "C02"
 PARTS = 8
 CONTROL_TOKENS = re.compile(r"\b(if|else|match|while|for|loop|return|break|continue|unwrap|expect|assert\w*|panic)\b|&&|\|\||\?|=>")
+COMPARISONS = re.compile(r"==|!=|<=|>=|(?<![<\-])<(?![<=])|(?<![\->])>(?![>=])")
+CLOSURE = re.compile(r"\|\s*&?\s*(mut\s+)?[A-Za-z_]\w*\s*(,\s*&?\s*[A-Za-z_]\w*\s*)*\|")
+CALLS = re.compile(r"([A-Za-z_]\w*)\s*\(")
+BRANCH_FREE_CALLS = re.compile(r"^(wrapping_\w+|iszero|sgnw|zeta|lookup\w*|_mm\w+|set_cond|select|cswap|set_condneg|condneg|from_u32|from_u64|u\d+|i\d+)$")
+
+def straight_line(text):
+    """True when the source line can only be a masked, branch-free computation: no control-flow token, no comparison, no closure,
+    and no call other than the wrapping / masking / table-scan helpers."""
+    if text == "?" or CONTROL_TOKENS.search(text) or COMPARISONS.search(text) or CLOSURE.search(text):
+        return False
+    return all(BRANCH_FREE_CALLS.match(c) for c in CALLS.findall(text))
 
 def strip_generics(fn):
     prev = None
@@ -159,7 +170,8 @@ def main():
             unattributed[sig] = sorted(entries)
             continue
         fn_at = site.split(" [")[0]
-        pol = next((p for p in policy if all(re.search(p["match"], fn_at + (" <- " + c if c != "-" else "")) for c in callers[sig])), None)
+        ltext = site.split(" [", 1)[1].rsplit("]", 1)[0] if " [" in site else "?"
+        pol = next((p for p in policy if re.search(p["match"], fn_at) and re.search(p.get("line", ""), ltext)), None)
         if pol:
             allowed[sig] = sorted(entries)
             continue
@@ -172,7 +184,7 @@ def main():
         # code (no control-flow token) cannot come from a source-level branch: it is reported under the generic known finding
         # instead of as a new violation.  Secret-dependent addresses (UninitValue) and lines with control flow are never generic.
         kind, text = sig.split(":")[2], (site.split(" [", 1)[1].rsplit("]", 1)[0] if " [" in site else "?")
-        if generic_known and kind == "UninitCondition" and not CONTROL_TOKENS.search(text):
+        if generic_known and kind == "UninitCondition" and straight_line(text):
             knownhit[sig] = generic_known["what"] + " - site not listed individually: " + site
             generic_hits.append(sig)
             continue
